@@ -252,8 +252,8 @@ where
         // Offset to have inclusive behavior.
         if right >= 0 && right < len {
             r = (len - 1 - right) as usize;
-        } else if right < 0 && right.abs() <= len {
-            r = (right.abs() - 1).unsigned_abs();
+        } else if right < 0 && right.unsigned_abs() <= len as usize {
+            r = right.unsigned_abs() - 1;
         } else if right < 0 {
             r = len as usize;
         }
